@@ -285,6 +285,14 @@ def gen_uns(rng, big):
 
 
 TENSOR_SHAPES = [[], [], [2], [3], [2, 2]]
+# physical scale of the coordinates of the grid a field is binned on / supersampled on: exact powers of two from
+# 2^-30 (~1e-9: radians in a focal plane) to 2^30 (~1e9), so that coordinates, spacings and weights stay exact
+COORD_SCALES = [1.0] * 5 + [2.0 ** k for k in (-30, -27, -24, -20, -17, -14, -10, -7, 7, 10, 20, 30)]
+
+
+def scale_label(S):
+    import math
+    return '2^%d' % int(round(math.log2(S)))
 
 
 def gen_bins(rng, big):
@@ -299,9 +307,16 @@ def gen_bins(rng, big):
         ss = [ss[0]] * ndim
         spell = str(rng.choice(['array', 'list', 'array1', 'list1']))
     nfine = int(np.prod([d * f for d, f in zip(dims, ss)]))
-    return {'fam': 'bin', 'dims': dims, 'ss': ss, 'spell': spell, 'stat': str(rng.choice(['sum', 'mean'])),
+    case = {'fam': 'bin', 'dims': dims, 'ss': ss, 'spell': spell, 'stat': str(rng.choice(['sum', 'mean'])),
             'delta': [float(rng.choice([0.25, 0.5, 1.0, 2.0])) * (-1.0 if rng.random() < 0.3 else 1.0) for _ in range(ndim)],
-            'vals': [dyadic(rng, -8, 8, 3) for _ in range(nfine)], 'give_grid': bool(rng.random() < 0.5)}
+            'vals': [dyadic(rng, -8, 8, 3) for _ in range(nfine)], 'give_grid': bool(rng.random() < 0.5),
+            'S': float(rng.choice(COORD_SCALES))}
+    if rng.random() < 0.4 and all(d * f >= 2 for d, f in zip(dims, ss)):
+        # per-axis factors on a non-regular (irregularly spaced separated) grid: weighted mean, new_grid mandatory
+        case['axes'] = [(lambda k: k[::-1] if rng.random() < 0.4 else k)(gen_knots(rng, d * f, 2)) for d, f in zip(dims, ss)]
+        case['give_grid'] = True
+        case['stat'] = str(rng.choice(['mean', 'mean', 'sum']))
+    return case
 
 
 def gen_bin(rng, big):
@@ -319,7 +334,7 @@ def gen_bin(rng, big):
     case = {'fam': 'bin', 'dims': dims, 's': s, 'tshape': tshape, 'regular': regular,
             'stat': str(rng.choice(['sum', 'mean'])),
             'vals': [dyadic(rng, -8, 8, 3) for _ in range(ncomp * nfine)],
-            'give_grid': bool(rng.random() < 0.5) or not regular}
+            'give_grid': bool(rng.random() < 0.5) or not regular, 'S': float(rng.choice(COORD_SCALES))}
     if regular:
         case['delta'] = [float(rng.choice([0.25, 0.5, 1.0, 2.0])) * (-1.0 if rng.random() < 0.4 else 1.0) for _ in range(ndim)]
     else:
@@ -340,8 +355,14 @@ def gen_ss(rng, big):
     scalar_n = bool(rng.random() < 0.5)
     if scalar_n:
         ns = [ns[0]] * ndim
+    S = float(rng.choice(COORD_SCALES))
+    if S != 1.0:
+        # the same grid and the same function in another unit of length (exact: S is a power of two)
+        axes = [[x * S for x in a] for a in axes]
+        c = [ck / S for ck in c]
+        quad = [qk / (S * S) for qk in quad]
     return {'fam': 'ss', 'via': pick_via(rng, axes), 'regular': regular, 'axes': axes, 'c0': c0, 'c': c, 'q': quad, 'ns': ns, 'scalar_n': scalar_n,
-            'stat': str(rng.choice(['mean', 'mean', 'sum']))}
+            'stat': str(rng.choice(['mean', 'mean', 'sum'])), 'S': S}
 
 
 # ---------------------------------------------------------------------------------------------
@@ -688,19 +709,30 @@ def run_bins(case):
     import hcipy
     bad, lines, cmps = [], [], []
     dims, ss, stat = case['dims'], case['ss'], case['stat']
+    S = case.get('S', 1.0)
     nd = len(dims)
     fine = [d * f for d, f in zip(dims, ss)]
-    grid = hcipy.CartesianGrid(hcipy.RegularCoords(case['delta'], fine, [0.0] * nd))
+    irregular = 'axes' in case
+    if irregular:
+        fine_axes = [[x * S for x in a] for a in case['axes']]
+        grid = make_grid(fine_axes, False)
+    else:
+        grid = hcipy.CartesianGrid(hcipy.RegularCoords([d * S for d in case['delta']], fine, [0.0] * nd))
     arg = {'array': lambda: np.array(ss), 'list': lambda: list(ss), 'float-array': lambda: np.array(ss, dtype=float),
            'array1': lambda: np.array(ss[:1]), 'list1': lambda: list(ss[:1])}[case['spell']]()
-    info = {'per_axis': True}
+    weighted = irregular and stat == 'mean'
+    info = {'per_axis': True, 'weighted': weighted, 'irregular': irregular}
     try:
-        new_grid = hcipy.make_subsampled_grid(grid, arg) if case['give_grid'] else None
+        if irregular:
+            coarse_axes = [[float(np.mean(a[i * f:(i + 1) * f])) for i in range(d)] for a, d, f in zip(fine_axes, dims, ss)]
+            new_grid = hcipy.CartesianGrid(hcipy.SeparatedCoords([np.array(a) for a in coarse_axes]))
+        else:
+            new_grid = hcipy.make_subsampled_grid(grid, arg) if case['give_grid'] else None
         res = hcipy.subsample_field(hcipy.Field(np.array(case['vals'], dtype=float), grid), arg, new_grid, statistic=stat)
     except Exception as e:  # noqa
-        bad.append(('binning-per-axis-factors-raises', 'subsample_field(field, %r (%s), statistic=%r) on a %r grid raised %s: %s (the docstring '
+        bad.append(('binning-per-axis-factors-raises', 'subsample_field(field, %r (%s), statistic=%r) on a %r %s grid (coordinate scale %s) raised %s: %s (the docstring '
                     'promises "if this is an array, the subsampling factor will be different for each dimension")'
-                    % (ss, case['spell'], stat, fine, type(e).__name__, str(e)[:80])))
+                    % (ss, case['spell'], stat, fine, 'non-regular' if irregular else 'regular', scale_label(S), type(e).__name__, str(e)[:80])))
         return bad, lines, cmps, info
     out = np.asarray(res, dtype=float)
     ncoarse = int(np.prod(dims))
@@ -711,17 +743,34 @@ def run_bins(case):
     if rg is None or rg.size != ncoarse or (new_grid is not None and rg is not new_grid) or [int(d) for d in rg.dims] != dims:
         bad.append(('binning-grid', 'binned field does not live on the coarse grid %r' % (dims,)))
     p = frl(case['vals'])
-    want = brute_bins(p, dims, ss)
-    if stat == 'mean':
-        want = [x / int(np.prod(ss)) for x in want]
+    sd, sdims = '[' + ','.join(str(f) for f in ss[::-1]) + ']', '[' + ','.join(str(d) for d in dims[::-1]) + ']'
+    if weighted:
+        w = frl(np.asarray(grid.weights, dtype=float) * np.ones(len(p)))
+        num, den = brute_bins([a * b for a, b in zip(p, w)], dims, ss), brute_bins(w, dims, ss)
+        want = [a / b for a, b in zip(num, den)]
+    else:
+        want = brute_bins(p, dims, ss)
+        if stat == 'mean':
+            want = [x / int(np.prod(ss)) for x in want]
     err = cmp_vals([float(x) for x in out], want)
     if err is None or err > TOL:
-        bad.append(('binning-value', '%s-binning by the per-axis factors %r differs from the brute-force bins' % (stat, ss)))
-    lines.append('C18 bins %s %s %s %s' % (stat, '[' + ','.join(str(f) for f in ss[::-1]) + ']', '[' + ','.join(str(d) for d in dims[::-1]) + ']', rat_list(case['vals'])))
+        bad.append(('binning-value', '%s-binning by the per-axis factors %r on a %s grid with coordinates of scale %s differs from the brute-force %sbins'
+                    % (stat, ss, 'non-regular' if irregular else 'regular', scale_label(S), 'weighted ' if weighted else '')))
+    elif weighted:
+        # conservation of the weighted total, relative to the size of the weights (the unit of the coordinates is arbitrary)
+        tot = sum(a * b for a, b in zip(p, w))
+        tot_b = sum(fr(x) * d for x, d in zip(out, den))
+        if abs(float(tot_b - tot)) > TOL * float(sum(abs(a * b) for a, b in zip(p, w))):
+            bad.append(('binning-mean-not-conserved', 'weighted mean not conserved on a non-regular grid (per-axis factors %r, coordinate scale %s)' % (ss, scale_label(S))))
+    if weighted:
+        lines.append('C18 binws %s %s %s %s' % (sd, sdims, rat_list(case['vals']), rat_list([float(x) for x in w])))
+        cmps.append(('binws', [float(x) for x in out], {}))
+        return bad, lines, cmps, info
+    lines.append('C18 bins %s %s %s %s' % (stat, sd, sdims, rat_list(case['vals'])))
     cmps.append(('bins', [float(x) for x in out], {}))
     if stat == 'sum':
         # the closed form of the index map (`boxSums`, theorem bins_pixel), every coarse pixel
-        lines.append('C18 binpix %s %s %s' % ('[' + ','.join(str(f) for f in ss[::-1]) + ']', '[' + ','.join(str(d) for d in dims[::-1]) + ']', rat_list(case['vals'])))
+        lines.append('C18 binpix %s %s %s' % (sd, sdims, rat_list(case['vals'])))
         cmps.append(('binpix', [float(x) for x in out], {}))
         info['binpix'] = 1
     return bad, lines, cmps, info
@@ -737,13 +786,15 @@ def run_bin(case):
     ncoarse = int(np.prod(dims))
     nfine = ncoarse * s ** nd
     ncomp = int(np.prod(tshape)) if tshape else 1
+    S = case.get('S', 1.0)      # physical scale of the coordinates (exact power of two)
     if case['regular']:
-        fine_axes = [[case['delta'][k] * i for i in range(dims[k] * s)] for k in range(nd)]
+        delta = [d * S for d in case['delta']]
+        fine_axes = [[delta[k] * i for i in range(dims[k] * s)] for k in range(nd)]
         grid = make_grid(fine_axes, True) if all(len(a) > 1 for a in fine_axes) else \
-            hcipy.CartesianGrid(hcipy.RegularCoords(case['delta'], [d * s for d in dims], [0.0] * nd))
+            hcipy.CartesianGrid(hcipy.RegularCoords(delta, [d * s for d in dims], [0.0] * nd))
         new_grid = hcipy.make_subsampled_grid(grid, s) if case['give_grid'] else None
     else:
-        fine_axes = case['axes']
+        fine_axes = [[x * S for x in a] for a in case['axes']]
         grid = make_grid(fine_axes, False)
         coarse_axes = [[float(np.mean(a[i * s:(i + 1) * s])) for i in range(d)] for a, d in zip(fine_axes, dims)]
         new_grid = hcipy.CartesianGrid(hcipy.SeparatedCoords([np.array(a) for a in coarse_axes]))
@@ -777,7 +828,8 @@ def run_bin(case):
                 want = [x / (s ** nd) for x in want]
         err = cmp_vals([float(x) for x in comps_out[k]], want)
         if err is None or err > TOL:
-            bad.append(('binning-value', '%s-binning by %d of component %d differs from the brute-force bins' % (stat, s, k)))
+            bad.append(('binning-value', '%s-binning by %d of component %d on a %s grid with coordinates of scale %s differs from the brute-force %sbins'
+                        % (stat, s, k, 'regular' if case['regular'] else 'non-regular', scale_label(S), 'weighted ' if weighted else '')))
             break
         sc = max(1.0, float(sum(abs(x) for x in p)))
         if stat == 'sum' and abs(float(np.sum(comps_out[k])) - float(sum(p))) > TOL * sc:
@@ -789,8 +841,9 @@ def run_bin(case):
         if weighted:
             tot = sum(a * b for a, b in zip(p, w))
             tot_b = sum(Fraction(*float(x).as_integer_ratio()) * d for x, d in zip(comps_out[k], den))
-            if abs(float(tot_b - tot)) > TOL * max(1.0, float(sum(abs(a * b) for a, b in zip(p, w)))):
-                bad.append(('binning-mean-not-conserved', 'weighted mean not conserved on a non-regular grid'))
+            # relative to the size of the weights: the unit of the coordinates is arbitrary
+            if abs(float(tot_b - tot)) > TOL * float(sum(abs(a * b) for a, b in zip(p, w))):
+                bad.append(('binning-mean-not-conserved', 'weighted mean not conserved on a non-regular grid (coordinate scale %s)' % scale_label(S)))
                 break
         # independence of tensor components: bin the component alone
         if ncomp > 1:
@@ -820,6 +873,27 @@ def run_bin(case):
                 cmps.append(('binpix', [float(x) for x in comps_out[k]], {}))
                 npix += 1
     return bad, lines, cmps, {'weighted': weighted, 'ncomp': ncomp, 'binpix': npix}
+
+
+def ss_reference(axes, c0, c, q, ns, stat):
+    """brute-force exact reference for evaluate_supersampled of c0 + Σ c·x + Σ q·x² on the separated grid `axes`
+    (x-axis first): per point the sum / mean over the n_x·n_y·… dithered copies x + d·δ, d = (j+1/2)/n - 1/2,
+    δ = the local cell width (one-sided at the ends).  Independent of the Lean model."""
+    per_axis = []
+    for k, (a, n) in enumerate(zip(axes, ns)):
+        fa = frl(a)
+        dl = [fa[1] - fa[0]] + [(fa[i + 1] - fa[i - 1]) / 2 for i in range(1, len(fa) - 1)] + [fa[-1] - fa[-2]]
+        ds = [Fraction(2 * j + 1, 2 * n) - Fraction(1, 2) for j in range(n)]
+        ck, qk = fr(c[k]), fr(q[k])
+        # Σ_j c·(x+d_j δ) + q·(x+d_j δ)², and the count
+        per_axis.append([sum(ck * (x + d * w) + qk * (x + d * w) ** 2 for d in ds) for x, w in zip(fa, dl)])
+    cnt = int(np.prod(ns))
+    out = []
+    for idx in itertools.product(*[range(len(a)) for a in axes[::-1]]):
+        idx = idx[::-1]
+        tot = fr(c0) * cnt + sum(per_axis[k][i] * (cnt // ns[k]) for k, i in enumerate(idx))
+        out.append(tot if stat == 'sum' else tot / cnt)
+    return out
 
 
 def run_ss(case):
@@ -856,7 +930,12 @@ def run_ss(case):
         want = [aff(c0, c, p) * mult for p in pts]
         err = cmp_vals(got, want)
         if err is None or err > TOL:
-            bad.append(('supersampled-affine', 'supersampled evaluation (%s, oversampling %r) of an affine function differs from its direct evaluation' % (case['stat'], arg)))
+            bad.append(('supersampled-affine', 'supersampled evaluation (%s, oversampling %r, coordinate scale %s) of an affine function differs from its direct evaluation' % (case['stat'], arg, scale_label(case.get('S', 1.0)))))
+    else:
+        # quadratic generator: the sub-pixel positions matter (dither offsets x local cell width), brute-force reference
+        err = cmp_vals(got, ss_reference(axes, c0, c, q, ns, case['stat']))
+        if err is None or err > TOL:
+            bad.append(('supersampled-value', 'supersampled evaluation (%s, oversampling %r, coordinate scale %s) of a quadratic function differs from the mean over the dithered sub-pixels' % (case['stat'], arg, scale_label(case.get('S', 1.0)))))
     lines.append('C18 ss %s %s %s %s %s %s' % (case['stat'], rat(c0), rat_list(c), rat_list(q), rat_lists(axes), '[' + ','.join(str(n) for n in ns) + ']'))
     cmps.append(('ss', got, {}))
     return bad, lines, cmps, {'affine': affine, 'dithers': cnt}
@@ -914,6 +993,9 @@ def json_copy(x):
 def apply_op_real(grid, op, inplace):
     name, arg = op[0], (op[1] if len(op) > 1 else None)
     a = np.array(arg, dtype=float) if isinstance(arg, list) else arg
+    if name == 'assign':
+        grid.coords = grid.shifted(a).coords       # attribute assignment: same Grid object, new coordinates
+        return grid
     if inplace:
         if name == 'reverse':
             grid.reverse()
@@ -1165,17 +1247,20 @@ def gen_reuse(rng, big):
     cur = st
     for _ in range(int(rng.integers(1, 5 if big else 4))):
         name = str(rng.choice(REUSE_OPS))
+        target = str(rng.choice(['src', 'src', 'eval', 'eval']))
+        if target == 'eval' and rng.random() < 0.25:
+            name = 'assign'       # E.coords = <coordinates of a shifted grid>: the plainest in-place change of a Grid object
         if name == 'scale':
             f = [float(rng.choice([2.0, 0.5, -1.0, -2.0, 1.0])) for _ in range(nd)]
             op = ['scale', f[0] if (len(set(f)) == 1 or rng.random() < 0.4) else f]
             if cur['kind'] == 'unstructured' and isinstance(op[1], list) and False:
                 op = ['scale', f[0]]
-        elif name == 'shift':
-            op = ['shift', [pix * float(rng.integers(-6, 7)) / 2.0 for _ in range(nd)]]
+        elif name in ('shift', 'assign'):
+            op = [name, [pix * float(rng.integers(-6, 7)) / 2.0 for _ in range(nd)]]
         else:
             op = ['reverse']
-        steps.append({'target': str(rng.choice(['src', 'src', 'eval'])), 'op': op, 'inplace': bool(rng.random() < 0.5),
-                      'values': None, 'keep_interp': bool(rng.random() < 0.5)})
+        steps.append({'target': target, 'op': op, 'inplace': bool(rng.random() < 0.5) or name == 'assign',
+                      'values': None, 'keep_interp': bool(rng.random() < (0.7 if target == 'eval' else 0.5))})
     case = {'fam': 'reuse', 'S': S, 'src': st, 'eval': est, 'steps': steps, 'seed_values': int(rng.integers(0, 2 ** 31))}
     return case
 
@@ -1202,12 +1287,14 @@ def run_reuse(case):
             nd = len(st['axes'])
             c0, c = affine_coeffs(vr, nd)
             c = [ck / S for ck in c]
+            # half of the uses with a quadratic term: then the cell widths (derived from the grid object) matter
+            qq = [dyadic(vr, -2, 2, 1) / (S * S) if vr.random() < 0.5 else 0.0 for _ in range(nd)]
             try:
-                res = to_list(hcipy.evaluate_supersampled(lambda g: hcipy.Field(c0 + sum(ck * np.asarray(g.coords[k]) for k, ck in enumerate(c)), g), G, 2))
-                want = [aff(c0, c, q) for q in state_points(st)]
+                res = to_list(hcipy.evaluate_supersampled(lambda g: hcipy.Field(c0 + sum(ck * np.asarray(g.coords[k]) + qk * np.asarray(g.coords[k]) ** 2 for k, (ck, qk) in enumerate(zip(c, qq))), g), G, 2))
+                want = ss_reference(st['axes'], c0, c, qq, [2] * nd, 'mean')
                 err = cmp_vals(res, want)
                 if err is None or err > TOL:
-                    bad.append(('reuse-supersampled', '%s: supersampled affine function differs from its direct evaluation' % tag))
+                    bad.append(('reuse-supersampled', '%s: supersampled %s function differs from %s' % (tag, 'quadratic' if any(qq) else 'affine', 'the mean over its dithered sub-pixels' if any(qq) else 'its direct evaluation')))
             except Exception as e:  # noqa
                 bad.append(('reuse-supersampled', '%s: evaluate_supersampled raised %s' % (tag, type(e).__name__)))
             if not bad and st['kind'] == 'regular' and all(len(a) % 2 == 0 for a in st['axes']):
@@ -1347,8 +1434,12 @@ def check_case(ctx, case, all_lines, index):
         ctx.count('bins:spelling:' + case['spell'])
         ctx.count('bins:' + ('uniform-factors' if len(set(case['ss'])) == 1 else 'different-factors'))
         ctx.count('bins:stat:' + case['stat'])
+        ctx.count('bins:' + ('regular' if not info.get('irregular') else 'separated-weighted' if info.get('weighted') else 'separated'))
+        ctx.count('bin:coordinate-scale:' + scale_label(case.get('S', 1.0)))
+        if info.get('weighted'):
+            ctx.count('bin:weighted-mean:coordinate-scale:' + scale_label(case.get('S', 1.0)))
         ctx.count('binpix:images', info.get('binpix', 0))
-        sig = (fam, tuple(case['dims']), tuple(case['ss']), case['spell'], case['stat'])
+        sig = (fam, tuple(case['dims']), tuple(case['ss']), case['spell'], case['stat'], info.get('irregular'), case.get('S', 1.0))
     elif fam == 'bin':
         ctx.count('bin:ndim=%d' % len(case['dims']))
         ctx.count('bin:s=%d' % case['s'])
@@ -1359,7 +1450,10 @@ def check_case(ctx, case, all_lines, index):
             ctx.count('bintl:' + case['stat'])
         ctx.count('binpix:images', info.get('binpix', 0))
         ctx.count('bin:' + ('regular' if case['regular'] else 'separated-weighted' if case['stat'] == 'mean' else 'separated'))
-        sig = (fam, tuple(case['dims']), case['s'], tuple(case['tshape']), case['stat'], case['regular'])
+        ctx.count('bin:coordinate-scale:' + scale_label(case.get('S', 1.0)))
+        if info.get('weighted'):
+            ctx.count('bin:weighted-mean:coordinate-scale:' + scale_label(case.get('S', 1.0)))
+        sig = (fam, tuple(case['dims']), case['s'], tuple(case['tshape']), case['stat'], case['regular'], case.get('S', 1.0))
     elif fam == 'scale':
         ctx.count('scale:source:' + info['kind'])
         ctx.count('scale:S=%g' % case['S'])
@@ -1372,13 +1466,16 @@ def check_case(ctx, case, all_lines, index):
             ctx.count('reuse:op:%s.%s:%s' % (stp['target'], stp['op'][0], 'in-place' if stp['inplace'] else 'copy'))
             if stp['target'] == 'eval' and stp['keep_interp']:
                 ctx.count('reuse:old-interpolator-on-changed-evaluation-grid')
+                if stp['inplace']:
+                    ctx.count('reuse:old-interpolator-on-the-same-evaluation-grid-object-changed-in-place:' + stp['op'][0])
         sig = (fam, info['kind'], info['ekind'], tuple((t['target'], t['op'][0], t['inplace']) for t in case['steps']))
     else:
         ctx.count('ss:stat:' + case['stat'])
+        ctx.count('ss:coordinate-scale:' + scale_label(case.get('S', 1.0)))
         ctx.count('ss:dirs:' + dirs_of(case['axes']))
         ctx.count('ss:' + ('affine' if info.get('affine') else 'quadratic'))
         ctx.count('ss:dithers', info.get('dithers', 0))
-        sig = (fam, tuple(len(a) for a in case['axes']), tuple(case['ns']), case['stat'], info.get('affine'))
+        sig = (fam, tuple(len(a) for a in case['axes']), tuple(case['ns']), case['stat'], info.get('affine'), case.get('S', 1.0))
     ctx.case({k: v for k, v in case.items() if k not in ('vals',)} if ctx.evaluations % 97 == 0 else None, nontrivial_key=sig)
     base = len(all_lines)
     all_lines += lines
